@@ -39,6 +39,7 @@ CONSTANTS
   EnableHB, EnableClose, EnableG2C, Adversary, UseTCP,
   Urgent,       \* TRUE: client steps and due timers pre-empt every environment step (conformance generation)
   AckChanCheck, \* TRUE: requestTunnel also compares the acknowledgement's channel (the code since the second fix: commit)
+  WFailBudget,  \* how many socket writes may fail with a transient local error (ENOBUFS and the like), C05 / C04
   ChanUnderLock \* TRUE: requestConn assigns the channel under seqMu (the code since the fix: commit); FALSE: before the lock (the pinned tree)
 
 VARIABLES
@@ -57,21 +58,22 @@ VARIABLES
   ackOpen, inbOpen, done, once, closer,
   starting, queued, reader, got, delivered,   \* pushInbound goroutines / channel queue / application
   rxq, sockOpen,
-  c2g, g2c, dups, losses, injs, gwf, injs,
+  c2g, g2c, dups, losses, injs, gwf,
+  wf, wfn,      \* wf: service type whose next socket write fails ("" = none armed); wfn: failures armed so far
   gw,           \* gateway: [conn, ch, expect, seq, pend]
   bus, nsend, ntele, nid, epoch,
   ev, act
 
 vars == <<now, srv, chan, sndSeq, rcvSeq, conn, mu, muq, snd, offers, hbNext, hb, hbOffers, failSig,
           ackOpen, inbOpen, done, once, closer, starting, queued, reader, got, delivered, rxq, sockOpen,
-          c2g, g2c, dups, losses, injs, gwf, gw, bus, nsend, ntele, nid, epoch, ev, act>>
+          c2g, g2c, dups, losses, injs, gwf, wf, wfn, gw, bus, nsend, ntele, nid, epoch, ev, act>>
 
 \* Everything except the labels `ev` and `act`. The histories `delivered` and `bus` stay in the view: the invariants
 \* NoDupDelivery / BusNoDup read them, and TLC evaluates an invariant only on states whose VIEW is new - hiding them
 \* would let a violating state be discarded as a duplicate of a harmless one. `nid` stays because worker ids flow into `hb`.
 view == <<now, srv, chan, sndSeq, rcvSeq, conn, mu, muq, snd, offers, hbNext, hb, hbOffers, failSig,
           ackOpen, inbOpen, done, once, closer, starting, queued, reader, got, delivered, rxq, sockOpen,
-          c2g, g2c, dups, losses, injs, gwf, gw, bus, nsend, ntele, nid, epoch>>
+          c2g, g2c, dups, losses, injs, gwf, wf, wfn, gw, bus, nsend, ntele, nid, epoch>>
 
 NoEv == [k |-> "none", t |-> 0, g |-> -1, svc |-> "", ch |-> -1, seq |-> -1, st |-> -1, pid |-> -1,
          hex |-> "", a |-> -1, b |-> -1, s |-> ""]
@@ -123,15 +125,23 @@ Init ==
   /\ ackOpen = TRUE /\ inbOpen = TRUE /\ done = FALSE /\ once = FALSE /\ closer = "none"
   /\ starting = {} /\ queued = << >> /\ reader = "idle" /\ got = -1 /\ delivered = << >>
   /\ rxq = << >> /\ sockOpen = TRUE
-  /\ c2g = BagAdd(EmptyBag, Frame("ConnReq", -1, 0, -1, -1)) /\ g2c = EmptyBag /\ dups = 0 /\ losses = 0 /\ injs = 0 /\ gwf = 0
+  /\ c2g = BagAdd(EmptyBag, Frame("ConnReq", -1, 0, -1, -1)) /\ g2c = EmptyBag /\ dups = 0 /\ losses = 0 /\ injs = 0 /\ gwf = 0 /\ wf = "" /\ wfn = 0
   /\ gw = [conn |-> FALSE, ch |-> 0, expect |-> 0, seq |-> 0, pend |-> -1, att |-> -1, rs |-> 0]
   /\ bus = << >> /\ nsend = 0 /\ ntele = 0 /\ nid = 0 /\ epoch = 0
   /\ ev = FrEv("Out", Frame("ConnReq", -1, 0, -1, -1))
   /\ act = Act("new", 0)
 
 \* the client transmits f (socket Send): event Out, datagram into the network
-Tx(f) == /\ ev' = FrEv("Out", f)
+\* ... unless a transient local error is armed for this service type: then the write fails (event OutErr),
+\* nothing is transmitted, and the caller sees the error (each call site says what it does with it)
+WFails(f) == wf # "" /\ wf = f.svc
+Tx(f) == /\ ~WFails(f)
+         /\ ev' = FrEv("Out", f)
          /\ c2g' = IF BagSize(c2g) < MaxNet THEN BagAdd(c2g, f) ELSE c2g   \* overflow = loss
+         /\ wf' = wf
+TxErr(f) == /\ WFails(f)
+            /\ ev' = FrEv("OutErr", f)
+            /\ c2g' = c2g /\ wf' = ""
 
 -----------------------------------------------------------------------------
 (* requestConn *)
@@ -151,6 +161,16 @@ ServeExitTo(s) ==
   /\ queued' = << >> /\ starting' = {}     \* parked senders panic and recover
   /\ reader' = IF reader = "waiting" THEN "idle" ELSE reader
   /\ offers' = {}                         \* relay goroutines blocked on the closed ack channel panic and recover
+
+\* the repetition's write fails: requestConn returns the error, serve gives up
+ConnResendErr ==
+  /\ srv.pc = "conn" /\ conn.next = now
+  /\ TxErr(Frame("ConnReq", -1, epoch, -1, -1))
+  /\ ServeExitTo([pc |-> "gone", a |-> -1, b |-> -1])
+  /\ hb' = {} /\ hbOffers' = {} /\ failSig' = FALSE /\ hbNext' = -1
+  /\ act' = TAct(0)
+  /\ UNCHANGED <<now, chan, sndSeq, rcvSeq, conn, mu, muq, snd, done, once, closer, got,
+                 delivered, rxq, sockOpen, g2c, dups, losses, injs, gwf, gw, bus, nsend, ntele, nid, epoch>>
 
 ConnTimeout ==
   /\ srv.pc = "conn" /\ conn.dead = now
@@ -209,15 +229,20 @@ AppSend(g) ==
 SendFirstTx(g) ==
   /\ snd[g].st = "locking" /\ mu = 0 /\ Len(muq) > 0 /\ Head(muq) = g
   /\ muq' = Tail(muq)
-  /\ IF sockOpen
-     THEN LET s == IF UseTCP THEN 0 ELSE sndSeq
-              f == Frame("TunnelReq", chan, s, -1, snd[g].pid)
-          IN /\ Tx(f) /\ mu' = g
+  /\ LET s == IF UseTCP THEN 0 ELSE sndSeq
+         f == Frame("TunnelReq", chan, s, -1, snd[g].pid)
+     IN IF sockOpen /\ ~WFails(f)
+        THEN /\ Tx(f) /\ mu' = g
              /\ snd' = [snd EXCEPT ![g] = [st |-> IF UseTCP THEN "tcpret" ELSE "waiting", pid |-> snd[g].pid, seq |-> s, ch |-> chan,
                                            next |-> now + R, dead |-> now + T]]
-     ELSE \* sock.Send on the closed socket fails: requestTunnel returns that error (the deferred Unlock runs)
-          /\ snd' = [snd EXCEPT ![g] = Idle] /\ mu' = 0
-          /\ ev' = SimEv("SendRet", g, snd[g].pid, "sockerr") /\ UNCHANGED c2g
+        ELSE IF sockOpen
+        THEN \* the first write fails with a transient error: the request is not transmitted; the lock stays held until
+             \* requestTunnel has returned the error (next step, SendErrReturn)
+             /\ TxErr(f) /\ mu' = g
+             /\ snd' = [snd EXCEPT ![g] = [st |-> "errret", pid |-> snd[g].pid, seq |-> s, ch |-> chan, next |-> -1, dead |-> -1]]
+        ELSE \* sock.Send on the closed socket fails: requestTunnel returns that error (the deferred Unlock runs)
+             /\ snd' = [snd EXCEPT ![g] = Idle] /\ mu' = 0
+             /\ ev' = SimEv("SendRet", g, snd[g].pid, "sockerr") /\ UNCHANGED <<c2g, wf>>
   /\ act' = Act("internal", g)
   /\ UNCHANGED <<now, srv, chan, sndSeq, rcvSeq, conn, offers, hbNext, hb, hbOffers, failSig, ackOpen, inbOpen, done, once, closer,
                  starting, queued, reader, got, delivered, rxq, sockOpen, g2c, dups, losses, injs, gwf, gw, bus, nsend, ntele, nid, epoch>>
@@ -228,15 +253,18 @@ Return(g, res) ==
   /\ ev' = SimEv("SendRet", g, snd[g].pid, res)
 
 SendTcpReturn(g) ==
-  /\ snd[g].st = "tcpret"
-  /\ Return(g, "ok") /\ act' = Act("internal", g)
+  /\ snd[g].st \in {"tcpret", "errret"}
+  /\ Return(g, IF snd[g].st = "tcpret" THEN "ok" ELSE "sockerr") /\ act' = Act("internal", g)
   /\ UNCHANGED <<now, muq, srv, chan, sndSeq, rcvSeq, conn, offers, hbNext, hb, hbOffers, failSig, ackOpen, inbOpen, done, once, closer,
                  starting, queued, reader, got, delivered, rxq, sockOpen, c2g, g2c, dups, losses, injs, gwf, gw, bus, nsend, ntele, nid, epoch>>
 
 SendResend(g) ==
   /\ snd[g].st = "waiting" /\ snd[g].next = now
-  /\ Tx(Frame("TunnelReq", snd[g].ch, snd[g].seq, -1, snd[g].pid))
-  /\ snd' = [snd EXCEPT ![g].next = now + R]
+  /\ LET f == Frame("TunnelReq", snd[g].ch, snd[g].seq, -1, snd[g].pid) IN
+     \/ Tx(f) /\ snd' = [snd EXCEPT ![g].next = now + R]
+     \* a retransmission's write fails: requestTunnel returns the error although the first transmission may have
+     \* reached the gateway; the sequence number stays (known finding C05-F2)
+     \/ TxErr(f) /\ snd' = [snd EXCEPT ![g].st = "errret", ![g].next = -1, ![g].dead = -1]
   /\ act' = TAct(g)
   /\ UNCHANGED <<now, muq, srv, chan, sndSeq, rcvSeq, conn, mu, offers, hbNext, hb, hbOffers, failSig, ackOpen, inbOpen, done, once,
                  closer, starting, queued, reader, got, delivered, rxq, sockOpen, g2c, dups, losses, injs, gwf, gw, bus, nsend, ntele, nid, epoch>>
@@ -334,7 +362,7 @@ ProcPush ==
 
 ProcAckOut ==
   /\ srv.pc = "ackout"
-  /\ Tx(Frame("TunnelRes", chan, srv.a, 0, -1))
+  /\ LET f == Frame("TunnelRes", chan, srv.a, 0, -1) IN Tx(f) \/ TxErr(f)     \* a failed write is logged, nothing else
   /\ srv' = [pc |-> "proc", a |-> -1, b |-> -1]
   /\ act' = Act("internal", 0)
   /\ UNCHANGED <<now, chan, sndSeq, rcvSeq, conn, mu, muq, snd, offers, hbNext, hb, hbOffers, failSig, ackOpen, inbOpen, done, once,
@@ -342,7 +370,7 @@ ProcAckOut ==
 
 ProcDiscRes ==
   /\ srv.pc = "discres"
-  /\ Tx(Frame("DiscRes", srv.a, -1, 0, -1))
+  /\ LET f == Frame("DiscRes", srv.a, -1, 0, -1) IN Tx(f) \/ TxErr(f)        \* "It doesn't matter."
   /\ srv' = [pc |-> "reconn", a |-> -1, b |-> -1]
   /\ act' = Act("internal", 0)
   /\ UNCHANGED <<now, chan, sndSeq, rcvSeq, conn, mu, muq, snd, offers, hbNext, hb, hbOffers, failSig, ackOpen, inbOpen, done, once,
@@ -351,12 +379,16 @@ ProcDiscRes ==
 \* process() returned errDisconnected / errHeartbeatFailed: serve calls requestConn
 ServeReconnect ==
   /\ srv.pc = "reconn"
-  /\ IF epoch < MaxEpoch
+  /\ IF epoch < MaxEpoch /\ ~WFails(Frame("ConnReq", -1, epoch, -1, -1))
      THEN /\ Tx(Frame("ConnReq", -1, epoch, -1, -1))
           /\ srv' = [pc |-> "conn", a |-> -1, b |-> -1]
           /\ conn' = [next |-> now + R, dead |-> now + T]
           /\ UNCHANGED <<inbOpen, ackOpen, queued, starting, reader, offers>>
-     ELSE /\ ServeExitTo([pc |-> "gone", a |-> -1, b |-> -1]) /\ ev' = NoEv /\ UNCHANGED <<conn, c2g>>
+     ELSE IF epoch < MaxEpoch
+     THEN \* the connect request's write fails: requestConn returns the error, serve gives up
+          /\ TxErr(Frame("ConnReq", -1, epoch, -1, -1))
+          /\ ServeExitTo([pc |-> "gone", a |-> -1, b |-> -1]) /\ UNCHANGED conn
+     ELSE /\ ServeExitTo([pc |-> "gone", a |-> -1, b |-> -1]) /\ ev' = NoEv /\ UNCHANGED <<conn, c2g, wf>>
   /\ hb' = {} /\ hbOffers' = {} /\ failSig' = FALSE /\ hbNext' = -1    \* close(heartbeat): workers end
   /\ act' = Act("internal", 0)
   /\ UNCHANGED <<now, chan, sndSeq, rcvSeq, mu, muq, snd, done, once, closer, got, delivered, rxq, sockOpen,
@@ -377,17 +409,20 @@ ServeExit ==
 ProcHbTick ==
   /\ EnableHB /\ srv.pc = "proc" /\ hbNext = now /\ ~done
   /\ hbNext' = now + H
-  /\ hb' = hb \cup {[id |-> nid, ch |-> chan, next |-> now + R, dead |-> now + T, pc |-> "wait"]}
   /\ nid' = nid + 1
-  /\ Tx(Frame("ConnStateReq", chan, -1, 0, -1))
+  /\ LET f == Frame("ConnStateReq", chan, -1, 0, -1) IN
+     \/ Tx(f) /\ hb' = hb \cup {[id |-> nid, ch |-> chan, next |-> now + R, dead |-> now + T, pc |-> "wait"]}
+     \* the worker's first write fails: requestConnState returns the error, the heartbeat has failed
+     \/ TxErr(f) /\ hb' = hb \cup {[id |-> nid, ch |-> chan, next |-> -1, dead |-> -1, pc |-> "fail"]}
   /\ act' = TAct(0)
   /\ UNCHANGED <<now, srv, chan, sndSeq, rcvSeq, conn, mu, muq, snd, offers, hbOffers, failSig, ackOpen, inbOpen, done, once, closer,
                  starting, queued, reader, got, delivered, rxq, sockOpen, g2c, dups, losses, injs, gwf, gw, bus, nsend, ntele, epoch>>
 
 HbResend ==
   /\ \E w \in hb : /\ w.pc = "wait" /\ w.next = now
-                   /\ hb' = (hb \ {w}) \cup {[w EXCEPT !.next = now + R]}
-                   /\ Tx(Frame("ConnStateReq", w.ch, -1, 0, -1))
+                   /\ LET f == Frame("ConnStateReq", w.ch, -1, 0, -1) IN
+                      \/ Tx(f) /\ hb' = (hb \ {w}) \cup {[w EXCEPT !.next = now + R]}
+                      \/ TxErr(f) /\ hb' = (hb \ {w}) \cup {[w EXCEPT !.pc = "fail"]}
   /\ act' = TAct(0)
   /\ UNCHANGED <<now, srv, chan, sndSeq, rcvSeq, conn, mu, muq, snd, offers, hbNext, hbOffers, failSig, ackOpen, inbOpen, done, once,
                  closer, starting, queued, reader, got, delivered, rxq, sockOpen, g2c, dups, losses, injs, gwf, gw, bus, nsend, ntele, nid, epoch>>
@@ -462,7 +497,7 @@ CloseEnter ==
 
 CloseDisc ==
   /\ closer = "disc"
-  /\ Tx(Frame("DiscReq", chan, -1, 0, -1))
+  /\ LET f == Frame("DiscReq", chan, -1, 0, -1) IN Tx(f) \/ TxErr(f)     \* Close ignores requestDisc's result
   /\ closer' = "wait" /\ done' = TRUE
   /\ act' = Act("internal", 0)
   /\ UNCHANGED <<now, srv, chan, sndSeq, rcvSeq, conn, mu, muq, snd, offers, hbNext, hb, hbOffers, failSig, ackOpen, inbOpen, once,
@@ -610,6 +645,16 @@ Inject ==
   /\ UNCHANGED <<now, srv, chan, sndSeq, rcvSeq, conn, mu, muq, snd, offers, hbNext, hb, hbOffers, failSig, ackOpen, inbOpen, done, once,
                  closer, starting, queued, reader, got, delivered, sockOpen, c2g, g2c, dups, losses, gwf, gw, bus, nsend, ntele, nid, epoch>>
 
+\* a transient local error is armed: the next socket write of a frame of this service type fails once
+ArmWFail ==
+  /\ wfn < WFailBudget /\ wf = "" /\ sockOpen /\ epoch > 0 /\ closer = "none"
+  /\ \E svc \in {"TunnelReq", "TunnelRes", "ConnStateReq", "ConnReq", "DiscRes"} :
+       /\ (svc = "TunnelReq" => MaxSend > 0) /\ (svc = "TunnelRes" => EnableG2C) /\ (svc \in {"ConnStateReq", "ConnReq", "DiscRes"} => EnableHB)
+       /\ wf' = svc /\ act' = ActF("wfail", Frame(svc, -1, -1, -1, -1))
+  /\ wfn' = wfn + 1 /\ ev' = NoEv
+  /\ UNCHANGED <<now, srv, chan, sndSeq, rcvSeq, conn, mu, muq, snd, offers, hbNext, hb, hbOffers, failSig, ackOpen, inbOpen, done, once,
+                 closer, starting, queued, reader, got, delivered, rxq, sockOpen, c2g, g2c, dups, losses, injs, gwf, gw, bus, nsend, ntele, nid, epoch>>
+
 \* time passes only when no timer is due now
 TimerDue ==
   \/ srv.pc = "conn" /\ (conn.next = now \/ conn.dead = now)
@@ -628,7 +673,7 @@ ClientCanStep ==
   \/ srv.pc = "conn" /\ Len(rxq) > 0
   \/ srv.pc = "proc" /\ (Len(rxq) > 0 \/ done \/ \E w \in hb : w.pc = "fail")
   \/ srv.pc \in {"proc", "conn"} /\ ~sockOpen /\ Len(rxq) = 0
-  \/ \E g \in Senders : (snd[g].st = "locking" /\ mu = 0 /\ Len(muq) > 0 /\ Head(muq) = g) \/ snd[g].st = "tcpret"
+  \/ \E g \in Senders : (snd[g].st = "locking" /\ mu = 0 /\ Len(muq) > 0 /\ Head(muq) = g) \/ snd[g].st \in {"tcpret", "errret"}
                           \/ (snd[g].st = "waiting" /\ (offers # {} \/ ~ackOpen))
   \/ done /\ (offers # {} \/ hbOffers # {})
   \/ hbOffers # {} /\ \E w \in hb : w.pc = "wait"
@@ -650,16 +695,23 @@ Tick ==
 \* behaviour is reproducible step by step; the property configurations leave the interleaving free.
 EnvOK == ~Urgent \/ (~ClientCanStep /\ ~TimerDue)
 
+\* the actions that write to the socket say themselves what becomes of `wf`; `wfn` changes in ArmWFail only
 Next ==
-  \/ ConnResend \/ ConnTimeout \/ ConnTake \/ ConnLock
-  \/ \E g \in Senders : (EnvOK /\ AppSend(g)) \/ SendFirstTx(g) \/ SendTcpReturn(g) \/ SendResend(g) \/ SendTimeout(g) \/ SendTakeAck(g) \/ SendAckClosed(g)
-  \/ AckOfferExpire
-  \/ ProcTake \/ ProcAckOut \/ ProcDiscRes \/ ServeReconnect \/ ServeExit
-  \/ ProcHbTick \/ HbResend \/ HbTimeout \/ HbTakeRes \/ HbOfferExpire \/ ProcFailSignal
-  \/ ProcPush \/ ParkReach \/ (EnvOK /\ AppRecv) \/ AppRecvRet
-  \/ (EnvOK /\ CloseEnter) \/ CloseDisc \/ CloseWait
-  \/ (EnvOK /\ (NetToGw \/ NetToGwFault \/ NetToClient \/ NetLose \/ NetDup \/ GwTelegram \/ GwResend \/ GwGiveUp \/ Inject))
-  \/ Tick
+  \/ /\ \/ ConnResend \/ ConnResendErr
+        \/ \E g \in Senders : SendFirstTx(g) \/ SendResend(g)
+        \/ ProcAckOut \/ ProcDiscRes \/ ServeReconnect \/ ProcHbTick \/ HbResend \/ CloseDisc
+     /\ UNCHANGED wfn
+  \/ /\ \/ ConnTimeout \/ ConnTake \/ ConnLock
+        \/ \E g \in Senders : (EnvOK /\ AppSend(g)) \/ SendTcpReturn(g) \/ SendTimeout(g) \/ SendTakeAck(g) \/ SendAckClosed(g)
+        \/ AckOfferExpire
+        \/ ProcTake \/ ServeExit
+        \/ HbTimeout \/ HbTakeRes \/ HbOfferExpire \/ ProcFailSignal
+        \/ ProcPush \/ ParkReach \/ (EnvOK /\ AppRecv) \/ AppRecvRet
+        \/ (EnvOK /\ CloseEnter) \/ CloseWait
+        \/ (EnvOK /\ (NetToGw \/ NetToGwFault \/ NetToClient \/ NetLose \/ NetDup \/ GwTelegram \/ GwResend \/ GwGiveUp \/ Inject))
+        \/ Tick
+     /\ UNCHANGED <<wf, wfn>>
+  \/ (EnvOK /\ ArmWFail)
 
 Spec == Init /\ [][Next]_vars
 
